@@ -311,6 +311,12 @@ def parse_output(out):
             d["rc"] = int(d["rc"])
             cur["apply"].append(d)
             cur["S"].append({})
+        elif p[0] == "merrorvec":
+            if p[1] == "none":
+                cur.setdefault("merrorvec", []).append(None)
+            else:
+                v = [float(x) for x in p[1:]]
+                cur.setdefault("merrorvec", []).append([(v[i], v[i + 1]) for i in range(0, len(v), 2)])
         elif p[0] == "S":
             vals = [float(x) for x in p[2:]]
             cur["S"][-1][int(p[1])] = [complex(vals[i], vals[i + 1]) for i in range(0, len(vals), 2)]
@@ -537,9 +543,19 @@ def add_dut(rng, sc):
     return d
 
 
-def build_trl(rng, sid, typ, nf=2, gfrac=0.6, swap=False):
+def quantise(z, bits):
+    if bits is None:
+        return z
+    k = float(1 << bits)
+    z = complex(z)
+    return complex(round(z.real * k) / k, round(z.imag * k) / k)
+
+
+def build_trl(rng, sid, typ, nf=2, gfrac=0.6, swap=False, quant=None):
     """2-port through / reflect / line with unknown reflect and line; guesses on the right side
-    of the root choice (closer to the truth than to -r, resp. 1/l, by the factor gfrac)."""
+    of the root choice (closer to the truth than to -r, resp. 1/l, by the factor gfrac).
+    quant = number of fractional bits kept in the measurements and guesses (for exact-rational
+    evaluation of the model on the same numbers)."""
     freqs = default_freqs(nf)
     em = ErrorModel(rng, typ, 2, nf)
     sc = Scenario(sid, typ, 2, freqs)
@@ -554,24 +570,30 @@ def build_trl(rng, sid, typ, nf=2, gfrac=0.6, swap=False):
                 break
         rt.append(r)
         lt.append(l)
-        rg.append(r + crand(rng, 0.0, gfrac * abs(r)))
-        lg.append(l + crand(rng, 0.0, gfrac * 0.5 * abs(l - 1.0 / l)))
+        rg.append(quantise(r + crand(rng, 0.0, gfrac * abs(r)), quant))
+        lg.append(quantise(l + crand(rng, 0.0, gfrac * 0.5 * abs(l - 1.0 / l)), quant))
     t = [[0, 1], [1, 0]]
     items = ["T", "R", "L"]
     if swap:
         rng.shuffle(items)
     rn = ln = None
+
+    def meas(s):
+        return [[[quantise(z, quant) for z in row] for row in em.measure(s(f), f)] for f in range(nf)]
+    sc.trl_meas = {}
     for it in items:
         if it == "T":
-            sc.add_through(1, 2, [em.measure(t, f) for f in range(nf)])
+            sc.trl_meas["T"] = meas(lambda f: t)
+            sc.add_through(1, 2, sc.trl_meas["T"])
         elif it == "R":
             rn = sc.unknown(rt, rg, "r")
-            sc.add_double(rn, rn, 1, 2, [em.measure([[rt[f], 0], [0, rt[f]]], f) for f in range(nf)])
+            sc.trl_meas["R"] = meas(lambda f: [[rt[f], 0], [0, rt[f]]])
+            sc.add_double(rn, rn, 1, 2, sc.trl_meas["R"])
         else:
             ln = sc.unknown(lt, lg, "l")
-            sc.add_line(["match", ln, ln, "match"], 1, 2,
-                        [em.measure([[0, lt[f]], [lt[f], 0]], f) for f in range(nf)])
-    sc.meta.update({"type": typ, "family": "trl", "order": "".join(items)})
+            sc.trl_meas["L"] = meas(lambda f: [[0, lt[f]], [lt[f], 0]])
+            sc.add_line(["match", ln, ln, "match"], 1, 2, sc.trl_meas["L"])
+    sc.meta.update({"type": typ, "family": "trl", "order": "".join(items), "quant": quant})
     return sc
 
 
